@@ -787,6 +787,7 @@ def grade_replay(repo: Repo) -> RuleRun:
                 wire = Obj(f"wire_b{b}a{a}{w}")
                 wire.set("grading", Obj(f"stale-grading_b{b}a{a}{w}", is_defined=True, length=Sym("old")))
                 wire.set("length", Sym(f"len_b{b}a{a}{w}"))
+                wire.set("is_valid", True)
                 wire.set("coincidents", set())
                 wires.append(wire)
             mgr.set("wires", wires)
